@@ -25,7 +25,12 @@ enum Op {
     KeyLatched,
     Reset,
     Timeup,
+    /// a status query that runs *concurrently* with the updaters: the getter the /provision handler uses, scheduled like
+    /// any other thread (one actor message per step)
+    Query,
 }
+
+static QUERY_OUT: std::sync::Mutex<Vec<String>> = std::sync::Mutex::new(Vec::new());
 
 type Fut = Pin<Box<dyn Future<Output = ()>>>;
 
@@ -37,6 +42,10 @@ fn make(op: Op, s: &SharedState) -> Fut {
         Op::KeyLatched => Box::pin(provision::key_latched(ct, kk, tel, prov, st)),
         Op::Reset => Box::pin(provision::key_latch_ready_state_reset(prov)),
         Op::Timeup => Box::pin(provision::provision_timeup(None, prov, st)),
+        Op::Query => Box::pin(async move {
+            let r = provision::get_provision_state_internal(prov, st, kk).await;
+            QUERY_OUT.lock().unwrap().push(r.error_message);
+        }),
     }
 }
 
@@ -151,6 +160,8 @@ fn run(kvariant: &[Op], init_flags: u8, prefix: &[usize], http_every_step: bool,
     let channel_latched = init_flags & 0x80 != 0;
     // bit 6: an earlier run died between writing status.tag.tmp and renaming it: a long stale temporary file is there
     let stale_tmp = init_flags & 0x40 != 0;
+    // bit 5: a fourth thread makes two status queries concurrently with the updaters
+    let with_query = init_flags & 0x20 != 0;
     let init_flags = init_flags & 7;
     let rt = tokio::runtime::Builder::new_current_thread().enable_all().build().unwrap();
     let _ = std::fs::remove_file(format!("{keys_dir}/status.tag"));
@@ -203,6 +214,14 @@ fn run(kvariant: &[Op], init_flags: u8, prefix: &[usize], http_every_step: bool,
             Thread { name: "L", ops: vec![Op::ListenerStarted], cur: 0, fut: None, step_in_op: 0 },
             Thread { name: "K", ops: kvariant.to_vec(), cur: 0, fut: None, step_in_op: 0 },
         ];
+        if with_query {
+            // (three threads: the listener does not report in these configurations)
+            threads.remove(1);
+            threads.push(Thread { name: "Q", ops: vec![Op::Query], cur: 0, fut: None, step_in_op: 0 });
+        }
+        QUERY_OUT.lock().unwrap().clear();
+        // readiness sets in force at each step of the query in flight
+        let mut query_window: Vec<[bool; 3]> = Vec::new();
         // reference, built from the outside
         let mut model: [bool; 3] = [init_flags & 1 != 0, init_flags & 2 != 0, init_flags & 4 != 0]; // R, K, L
         let mut stamp_exists = init_flags == 7;
@@ -214,7 +233,7 @@ fn run(kvariant: &[Op], init_flags: u8, prefix: &[usize], http_every_step: bool,
         let mut running: Option<usize> = None;
         let mut steps = 0u64;
         let mut stamps = 0u64;
-        let mut op_all_ready_at_first_step: [bool; 3] = [false; 3];
+        let mut op_all_ready_at_first_step: [bool; 4] = [false; 4];
         loop {
             let mut enabled: Vec<usize> = Vec::new();
             if let Some(r) = running {
@@ -250,6 +269,12 @@ fn run(kvariant: &[Op], init_flags: u8, prefix: &[usize], http_every_step: bool,
                 threads[ti].step_in_op = 0;
             }
             let first_step = threads[ti].step_in_op == 0;
+            if op == Op::Query {
+                if first_step {
+                    query_window.clear();
+                }
+                query_window.push(model);
+            }
             let done = {
                 let f = threads[ti].fut.as_mut().unwrap();
                 std::future::poll_fn(|cx| Poll::Ready(f.as_mut().poll(cx).is_ready())).await
@@ -262,8 +287,18 @@ fn run(kvariant: &[Op], init_flags: u8, prefix: &[usize], http_every_step: bool,
                 threads[ti].cur += 1;
             }
             // ---- reference update
+            if op == Op::Query && done {
+                // its error text names the subsystems that were not ready at SOME instant while it ran (one snapshot)
+                if let Some(msg) = QUERY_OUT.lock().unwrap().pop() {
+                    let named = names_in(&msg);
+                    if !query_window.iter().any(|m| named == [!m[0], !m[1], !m[2]]) {
+                        problems.push(("error-text-names-a-set-that-never-was:concurrent-query".into(), format!("a status query that ran while the updaters ran names (ebpf, keyLatch, listener) = {:?} as not ready; the readiness sets in force while it ran were {:?} (R, K, L): it is the complement of none of them", named, query_window)));
+                    }
+                }
+            }
             if first_step {
                 match op {
+                    Op::Query => {}
                     Op::RedirectorReady => model[0] = true,
                     Op::KeyLatched => model[1] = true,
                     Op::ListenerStarted => model[2] = true,
@@ -283,7 +318,7 @@ fn run(kvariant: &[Op], init_flags: u8, prefix: &[usize], http_every_step: bool,
                     stamps += 1;
                     let justified = match op {
                         Op::Timeup => true,
-                        Op::Reset => false,
+                        Op::Reset | Op::Query => false,
                         _ => op_all_ready_at_first_step[ti],
                     };
                     if !justified {
@@ -437,6 +472,9 @@ fn main() {
     for k in [0usize, 2, 4] {
         configs.push((k, 0x40)); // a stale status.tag.tmp of an earlier run is in the way
     }
+    for (k, init) in if thorough { vec![(5usize, 0u8), (3, 0), (1, 4), (5, 1)] } else { vec![(5usize, 0u8), (1, 4)] } {
+        configs.push((k, 0x20 | init)); // two status queries run concurrently with the updaters
+    }
     if let Ok(path) = std::env::var("VERIF_REPLAY") {
         let doc: Value = serde_json::from_str(&std::fs::read_to_string(path).unwrap()).unwrap();
         let c = &doc["case"];
@@ -462,7 +500,7 @@ fn main() {
         res.cov("exhaustive", !capped);
         res.cov("preemption_bound", bound as u64);
         res.cov("workers", n as u64);
-        res.cov("rule", format!("threads R=[redirector_ready], L=[listener_started], K in 6 op sequences over key_latched / key_latch_ready_state_reset / provision_timeup, from the empty readiness set and (K variants [reset, latched] and [latched, reset]) from {} non-initial readiness sets, and 4 K variants with the secure channel already latched (initial_flags bit 7), 3 with a stale status.tag.tmp of an earlier run in the directory (bit 6); every schedule with <= {bound} preemptions, one actor message per step; after every step: provision flags, finished tick and error text via the public getters; for schedules with <= 1 preemption also six real /provision HTTP queries (tick absent, 0, negative, far future, boundary before the step, first boundary, and the stamp itself -1 / +1 / +999 / +999999 ns); on a second listener whose key keeper handle has no actor (channel state unreadable) a far-future tick is never answered finished; after the default schedule of each configuration the real waiting client (ProvisionQuery, 4 polls) created after the last event; inotify on the tag directory", if thorough { 7 } else { 3 }));
+        res.cov("rule", format!("threads R=[redirector_ready], L=[listener_started], K in 6 op sequences over key_latched / key_latch_ready_state_reset / provision_timeup, from the empty readiness set and (K variants [reset, latched] and [latched, reset]) from {} non-initial readiness sets, and 4 K variants with the secure channel already latched (initial_flags bit 7), 3 with a stale status.tag.tmp of an earlier run in the directory (bit 6), 2 (4) with a fourth thread Q that makes a status query concurrently with the updaters (bit 5: the error text of a query must be the complement of a readiness set in force at one of its own steps); every schedule with <= {bound} preemptions, one actor message per step; after every step: provision flags, finished tick and error text via the public getters; for schedules with <= 1 preemption also six real /provision HTTP queries (tick absent, 0, negative, far future, boundary before the step, first boundary, and the stamp itself -1 / +1 / +999 / +999999 ns); on a second listener whose key keeper handle has no actor (channel state unreadable) a far-future tick is never answered finished; after the default schedule of each configuration the real waiting client (ProvisionQuery, 4 polls) created after the last event; inotify on the tag directory", if thorough { 7 } else { 3 }));
         std::process::exit(res.finish());
     }
     let (wi, wn) = me.unwrap();
